@@ -1329,10 +1329,27 @@ impl Session {
 
                     #[cfg(feature = "verif")]
                     crate::verif::point("hb.before_write").await;
-                    if let Err(e) = session
-                        .write_control_frame(Frame::control(Command::HeartRequest, 0))
-                        .await
+                    // A peer that has stopped reading (black-holed link, zero window)
+                    // makes this write wait behind a stalled writer for ever, and the
+                    // monitor would never get to its timeout check again: a request
+                    // that cannot be written within the timeout means the peer is dead.
+                    let write_result = match time::timeout(
+                        heartbeat_state.timeout,
+                        session.write_control_frame(Frame::control(Command::HeartRequest, 0)),
+                    )
+                    .await
                     {
+                        Ok(result) => result,
+                        Err(_) => {
+                            tracing::warn!(
+                                session_id = session_id,
+                                "[Session] Heartbeat request could not be written within the timeout; closing session"
+                            );
+                            let _ = session.close().await;
+                            break;
+                        }
+                    };
+                    if let Err(e) = write_result {
                         tracing::error!(
                             session_id = session_id,
                             "[Session] Failed to send HeartRequest: {}",
